@@ -7,7 +7,7 @@
    A second, independent invariant counts tickets (InvN).  The results are carried over to zmachine (integer cells =
    the code) by the machine homomorphism `length` (Proofs/C05_hom.v).
    7 thread sums, Inv; 8 reachable configurations, no deadlock, cool-down exit, writes, quiescence (lmachine);
-   9 tickets; 10 zmachine. *)
+   9 tickets; 10 zmachine; 11 the values counted are the values observed (InvV). *)
 From Coq Require Import ZArith List Bool Lia Permutation Sorted.
 From Verif Require Import Base.F64 Base.Conc Model.ClassicHist Model.NativeHist Model.NativeConc Proofs.C02_proofs Proofs.C05_conc_inv Proofs.C05_hom.
 Import ListNotations.
@@ -617,3 +617,249 @@ Proof.
   exact (quiescent_img (sh lc) _ Mt EN Tk P C1 C2 C3 C4 SR).
 Qed.
 End ZThm2.
+
+(* ====================================================================== *)
+(* 11. the counted values are the observed values                           *)
+(* ====================================================================== *)
+Definition obs_vals (l : list nop) : list f64 := flat_map (fun o => match o with NObserve v => [v] | NWrite => [] end) l.
+Definition pvpc (pc : npcL) : list f64 :=
+  match pc with
+  | oTicket _ v | oSumLoad _ v _ | oSumCas _ v _ _ | oLoadSch _ v _ | oLoadZt _ v _ _ | oBkLoad _ v _ _ _ | oBkLos _ v _ _ _
+  | oBkAdd _ v _ _ _ | oBnAdd _ v _ | oZero _ v _ | oCount _ v _ => [v]
+  | _ => []
+  end.
+Definition pvx (x : option npcL) : list f64 := match x with Some pc => pvpc pc | None => [] end.
+Definition pv (t : thread LM) : list f64 := obs_vals (t_todo t) ++ pvx (tpc t).
+Definition PV (T : list (thread LM)) : list f64 := concat (map pv T).
+Definition dupx (h : nshL) (x : option npcL) : list f64 :=
+  match x with Some (aStoreCnt _ _ c _) => cntv (gs h c) | _ => [] end.
+Definition DUP (h : nshL) (T : list (thread LM)) : list f64 := concat (map (fun t => dupx h (tpc t)) T).
+Definition InvV (AV : list f64) (c : Conc.config LM) : Prop :=
+  Permutation (cntv (gs (sh c) false) ++ cntv (gs (sh c) true) ++ PV (thr c)) (AV ++ DUP (sh c) (thr c)).
+
+Lemma obs_vals_app a b : obs_vals (a ++ b) = obs_vals a ++ obs_vals b. Proof. apply flat_map_app. Qed.
+Lemma pv_next todo idx time : Permutation (pv (next_thread todo idx time)) (obs_vals todo).
+Proof.
+  destruct todo as [|[v|] rest]; unfold pv, next_thread, tpc; cbn [t_todo t_cur pvx pvpc start_pc obs_vals flat_map app]; rewrite ?app_nil_r; try reflexivity.
+  symmetry. apply Permutation_cons_append.
+Qed.
+
+(* how one step changes the counts and the value the thread still has to count *)
+Definition cnt_eff (h : nshL) (pc : npcL) (h' : nshL) (nxt : npcL + nretL) : Prop :=
+  match pc with
+  | oCount _ v b => cntv (gs h' b) = cntv (gs h b) ++ [v] /\ cntv (gs h' (negb b)) = cntv (gs h (negb b)) /\
+                    match nxt with inl p => pvpc p = [] | inr _ => True end
+  | aAddCnt _ _ c _ x => cntv (gs h' (negb c)) = cntv (gs h (negb c)) ++ x /\ cntv (gs h' c) = cntv (gs h c) /\
+                         exists k r, nxt = inl (aStoreCnt VC k c r)
+  | aStoreCnt _ _ c _ => cntv (gs h' c) = [] /\ cntv (gs h' (negb c)) = cntv (gs h (negb c)) /\
+                         match nxt with inl p => dupx h' (Some p) = [] | inr _ => True end
+  | _ => (forall X, cntv (gs h' X) = cntv (gs h X)) /\
+         match nxt with inl p => pvpc p = pvpc pc /\ dupx h' (Some p) = [] | inr _ => pvpc pc = [] end
+  end.
+(* the next-pc functions never lead to an observer pc or to aStoreCnt *)
+Lemma p_e ph c neg ks : pvpc (e_next VC ph c neg ks) = []. Proof. destruct ks, neg, ph; reflexivity. Qed.
+Lemma d_e h ph c neg ks : dupx h (Some (e_next VC ph c neg ks)) = []. Proof. destruct ks, neg, ph; reflexivity. Qed.
+Lemma p_m k c neg r ks : pvpc (m_next VC k c neg r ks) = []. Proof. destruct ks, neg, k; reflexivity. Qed.
+Lemma d_m h k c neg r ks : dupx h (Some (m_next VC k c neg r ks)) = []. Proof. destruct ks, neg, k; reflexivity. Qed.
+Lemma p_ma k c neg r kk ks : pvpc (m_added VC k c neg r kk ks) = []. Proof. destruct k; cbn [m_added]; try reflexivity; apply p_m. Qed.
+Lemma d_ma h k c neg r kk ks : dupx h (Some (m_added VC k c neg r kk ks)) = []. Proof. destruct k; cbn [m_added]; try reflexivity; apply d_m. Qed.
+Lemma p_w c neg o ks : pvpc (w_next VC c neg o ks) = []. Proof. destruct ks, neg; reflexivity. Qed.
+Lemma d_w h c neg o ks : dupx h (Some (w_next VC c neg o ks)) = []. Proof. destruct ks, neg; reflexivity. Qed.
+Lemma p_ac k c count : pvpc (after_cool VC k c count) = []. Proof. destruct k; reflexivity. Qed.
+Lemma d_ac h k c count : dupx h (Some (after_cool VC k c count)) = []. Proof. destruct k; reflexivity. Qed.
+Lemma p_aa k c r : pvpc (after_addreset VC k c r) = []. Proof. destruct k; reflexivity. Qed.
+Lemma d_aa h k c r : dupx h (Some (after_addreset VC k c r)) = []. Proof. destruct k; reflexivity. Qed.
+Lemma cnt_step h pc h' nxt : lstep h pc = Some (h', nxt) -> cnt_eff h pc h' nxt.
+Proof.
+  intros Hs. destruct pc; stepin Hs;
+    repeat match goal with
+           | H : context [if ?c then _ else _] |- _ => destruct c
+           | H : context [match ?x with _ => _ end] |- _ =>
+               lazymatch type of x with list _ => destruct x | option _ => destruct x | mctx => destruct x | ephase => destruct x end
+           end; try discriminate; inversion Hs; subst; clear Hs; unfold cnt_eff, upd_side;
+    repeat match goal with h0 : nshL |- _ => destruct h0 end; hsimp; unfold cntv;
+    repeat match goal with b : bool |- _ => destruct b end; hsimp;
+    repeat split; try (intros [|]; reflexivity); try reflexivity; eauto;
+    rewrite ?p_e, ?d_e, ?p_m, ?d_m, ?p_ma, ?d_ma, ?p_w, ?d_w, ?p_ac, ?d_ac, ?p_aa, ?d_aa; try reflexivity;
+    repeat match goal with |- context [if ?b then _ else _] => destruct b | |- context [match ?x with _ => _ end] => destruct x end; reflexivity.
+Qed.
+
+Lemma PV_set T i t t' : nth_error T i = Some t -> Permutation (pv t ++ PV (set_nth T i t')) (pv t' ++ PV T).
+Proof. intros H. apply (concat_set_nth pv T i t t' H). Qed.
+Lemma DUP_set h T i t t' : nth_error T i = Some t ->
+  Permutation (dupx h (tpc t) ++ DUP h (set_nth T i t')) (dupx h (tpc t') ++ DUP h T).
+Proof. intros H. apply (concat_set_nth (fun t => dupx h (tpc t)) T i t t' H). Qed.
+Lemma DUP_ext h h' T : (forall t, In t T -> dupx h' (tpc t) = dupx h (tpc t)) -> DUP h' T = DUP h T.
+Proof. intros H. unfold DUP. f_equal. apply map_ext_in. exact H. Qed.
+Lemma dupx_holds h x : dupx h x <> [] -> hcnt x = 1.
+Proof. destruct x as [pc|]; [|intros H; contradiction H; reflexivity]. destruct pc; cbn [dupx]; intros H; try (contradiction H; reflexivity). reflexivity. Qed.
+Lemma others_nodup c i t : Inv c -> nth_error (thr c) i = Some t -> hcnt (tpc t) = 1 ->
+  forall h j tj, j <> i -> nth_error (thr c) j = Some tj -> dupx h (tpc tj) = [].
+Proof.
+  intros I Hi Hh h j tj Nj Hj. destruct (dupx h (tpc tj)) eqn:E; [reflexivity|exfalso].
+  assert (Hj1 : hcnt (tpc tj) = 1) by (apply (dupx_holds h); rewrite E; discriminate).
+  pose proof (NH_two (thr c) i j t tj Hi Hj (fun e => Nj (eq_sym e)) Hh Hj1) as G.
+  pose proof (i_nh c I) as N. destruct (nh_mtx VC (sh c)); lia.
+Qed.
+Lemma DUP_holder c i t : Inv c -> nth_error (thr c) i = Some t -> hcnt (tpc t) = 1 ->
+  forall h t', Permutation (DUP h (set_nth (thr c) i t')) (dupx h (tpc t')).
+Proof.
+  intros I Hi Hh h t'. pose (t0 := mkThread LM [] None 0).
+  assert (Z0 : DUP h (set_nth (thr c) i t0) = []).
+  { apply concat_all_nil. intros tj Hin. apply In_nth_error in Hin. destruct Hin as [j Hj].
+    destruct (nth_error_set_nth_inv _ _ _ _ _ Hj) as [[-> ->]|[Nj Hj']]; [reflexivity|]. apply (others_nodup c i t I Hi Hh h j tj Nj Hj'). }
+  assert (Hi0 : nth_error (set_nth (thr c) i t0) i = Some t0) by (apply (nth_error_set_nth_eq _ _ _ _ Hi)).
+  pose proof (DUP_set h (set_nth (thr c) i t0) i t0 t' Hi0) as P. change (dupx h (tpc t0)) with (@nil f64) in P. cbn [app] in P.
+  rewrite Z0, app_nil_r in P.
+  assert (E : set_nth (set_nth (thr c) i t0) i t' = set_nth (thr c) i t').
+  { clear. generalize (thr c). intros T. revert i. induction T as [|a T IH]; intros [|i]; cbn; try reflexivity. rewrite IH. reflexivity. }
+  rewrite E in P. exact P.
+Qed.
+
+Lemma set_nth_same {A} (l : list A) : forall n x, nth_error l n = Some x -> set_nth l n x = l.
+Proof. induction l as [|a l IH]; intros [|n] x H; cbn in *; try discriminate; [inversion H; reflexivity|rewrite IH; auto]. Qed.
+Lemma DUP_nil c i t : Inv c -> nth_error (thr c) i = Some t -> hcnt (tpc t) = 1 ->
+  forall h, Permutation (DUP h (thr c)) (dupx h (tpc t)).
+Proof.
+  intros I Hi Hh h. pose proof (DUP_holder c i t I Hi Hh h t) as P. rewrite (set_nth_same _ _ _ Hi) in P. exact P.
+Qed.
+
+Lemma InvV_step AV c tid c' : Inv c -> InvV AV c -> sched_step LM c tid = Some c' -> InvV AV c'.
+Proof.
+  intros I V St. destruct (sched_step_L c tid c' St) as (t & o & pc & inv & h' & nxt & Hi & Hc & Hs & Esh & Et).
+  pose proof (tpc_cur t o pc inv Hc) as Ht. pose proof (cnt_step _ _ _ _ Hs) as CE.
+  unfold InvV in *. rewrite Esh, Et.
+  set (t' := match nxt with inl l' => mkThread LM (t_todo t) (Some (o, l', inv)) (t_idx t) | inr _ => next_thread (t_todo t) (t_idx t + 1) (now c + 1) end) in *.
+  pose proof (PV_set (thr c) (Z.to_nat tid) t t' Hi) as PS. unfold pv at 1 in PS. rewrite Ht in PS. cbn [pvx] in PS.
+  assert (Pt' : forall l, match nxt with inl p9 => pvpc p9 = l | inr _ => l = [] end -> Permutation (pv t') (obs_vals (t_todo t) ++ l)).
+  { intros l Hl. unfold t'. destruct nxt as [p9|r9].
+    - unfold pv, tpc. cbn [t_todo t_cur pvx]. rewrite Hl. reflexivity.
+    - subst l. rewrite app_nil_r. apply pv_next. }
+  assert (Dt' : forall hh, dupx hh (tpc t') = match nxt with inl p9 => dupx hh (Some p9) | inr _ => [] end).
+  { intros hh. unfold t'. destruct nxt as [p9|r9]; [reflexivity|]. destruct (t_todo t) as [|[v|] rest]; reflexivity. }
+  pose proof (DUP_set h' (thr c) (Z.to_nat tid) t t' Hi) as DS. rewrite Ht, Dt' in DS.
+  set (T := thr c) in *. set (h := sh c) in *. set (i := Z.to_nat tid) in *.
+  destruct pc; cbn [cnt_eff] in CE;
+  try (destruct CE as [CS CN];
+       assert (PVe : Permutation (PV (set_nth T i t')) (PV T)) by
+         (match type of PS with Permutation ((?a ++ ?b) ++ _) _ =>
+            apply (Permutation_app_inv_l (a ++ b)); rewrite PS; rewrite (Pt' b) by (destruct nxt as [p9|r9]; apply CN); reflexivity end);
+       assert (DUe : Permutation (DUP h' (set_nth T i t')) (DUP h T)) by
+         (replace (match nxt with inl p9 => dupx h' (Some p9) | inr _ => [] end) with (@nil f64) in DS
+            by (destruct nxt as [p9|r9]; [symmetry; apply CN|reflexivity]);
+          cbn [dupx app] in DS; rewrite DS; rewrite (DUP_ext h h' T); [reflexivity|];
+          intros tj _; destruct (tpc tj) as [[]|]; cbn [dupx]; try reflexivity; apply CS);
+       rewrite !CS, PVe, DUe; exact V).
+  - (* oCount *) destruct CE as (C1 & C2 & CN).
+    assert (Pvt : Permutation (pv t') (obs_vals (t_todo t))).
+    { rewrite (Pt' []); [rewrite app_nil_r; reflexivity|]. destruct nxt as [p9|r9]; [exact CN|reflexivity]. }
+    assert (PVe : Permutation ([v] ++ PV (set_nth T i t')) (PV T)).
+    { apply (Permutation_app_inv_l (obs_vals (t_todo t))). cbn [pvpc] in PS. rewrite app_assoc, PS, Pvt. reflexivity. }
+    assert (DUe : Permutation (DUP h' (set_nth T i t')) (DUP h T)).
+    { replace (match nxt with inl p9 => dupx h' (Some p9) | inr _ => [] end) with (@nil f64) in DS.
+      2:{ clear - Hs. stepin Hs. inversion Hs. destruct (is_nan v || _); reflexivity. }
+      cbn [dupx app] in DS. rewrite DS. rewrite (DUP_ext h h' T); [reflexivity|].
+      intros tj Hin. destruct (tpc tj) as [pcj|] eqn:Ej; [|reflexivity]. destruct pcj; try reflexivity. cbn [dupx].
+      apply In_nth_error in Hin. destruct Hin as [j Hj]. unfold tpc in Ej. destruct (t_cur tj) as [[[oj pcj] invj]|] eqn:Ecj; [|discriminate]. inversion Ej. subst pcj.
+      pose proof (i_hold c I j tj oj _ invj Hj Ecj eq_refl) as P. cbn [Phi] in P. destruct P as ((_ & F0 & _) & _).
+      pose proof (F_ge b T i t Hi) as G. rewrite Ht in G. cbn [fcnt inflight] in G. rewrite Bool.eqb_reflx in G.
+      assert (c0 = negb b) by (destruct c0, b; cbn in *; try reflexivity; fold T in F0; lia). subst c0. exact C2. }
+    rewrite DUe, <- V, <- PVe. destruct b; cbn [negb] in *; rewrite C1, C2; perm.
+  - (* aAddCnt *) destruct CE as (C1 & C2 & kk & rr & ->).
+    pose proof (i_hold c I i t o _ inv Hi Hc eq_refl) as P. cbn [Phi] in P. destruct P as (_ & _ & Ex). fold h in Ex.
+    assert (Hh : hcnt (tpc t) = 1) by (rewrite Ht; reflexivity).
+    assert (PVe : Permutation (PV (set_nth T i t')) (PV T)).
+    { apply (Permutation_app_inv_l (obs_vals (t_todo t) ++ [])). cbn [pvpc] in PS. rewrite PS. rewrite (Pt' []); reflexivity. }
+    pose proof (DUP_holder c i t I Hi Hh h' t') as D1. rewrite Dt' in D1. cbn [dupx] in D1.
+    pose proof (DUP_nil c i t I Hi Hh h) as D0. rewrite Ht in D0. cbn [dupx] in D0. apply Permutation_sym, Permutation_nil in D0.
+    fold T in D0, D1. fold h in D0. rewrite D0, app_nil_r in V. rewrite D1, PVe, C2, <- Ex.
+    destruct c0; cbn [negb] in *; rewrite C1, ?C2; rewrite <- V; perm.
+  - (* aStoreCnt *) destruct CE as (C1 & C2 & CN).
+    assert (Hh : hcnt (tpc t) = 1) by (rewrite Ht; reflexivity).
+    assert (PVe : Permutation (PV (set_nth T i t')) (PV T)).
+    { apply (Permutation_app_inv_l (obs_vals (t_todo t) ++ [])). cbn [pvpc] in PS. rewrite PS. rewrite (Pt' []); [reflexivity|].
+      destruct nxt as [p9|r9]; [|reflexivity]. stepin Hs. inversion Hs. reflexivity. }
+    pose proof (DUP_holder c i t I Hi Hh h' t') as D1. rewrite Dt' in D1.
+    replace (match nxt with inl p9 => dupx h' (Some p9) | inr _ => [] end) with (@nil f64) in D1 by (destruct nxt as [p9|r9]; [symmetry; exact CN|reflexivity]).
+    pose proof (DUP_nil c i t I Hi Hh h) as D0. rewrite Ht in D0. cbn [dupx] in D0.
+    fold T in D0, D1. fold h in D0. rewrite D0 in V. rewrite D1, PVe, app_nil_r.
+    apply (Permutation_app_inv_r (cntv (gs h c0))). rewrite <- V.
+    destruct c0; cbn [negb] in *; rewrite C1, C2; perm.
+Qed.
+
+Lemma InvV_init g progs : InvV (obs_vals (concat progs)) (init_config LM (linit g) progs).
+Proof.
+  unfold InvV, init_config. cbn [sh thr].
+  assert (G : forall (ids : list Z) (ps : list (list nop)), length ids = length ps ->
+     Permutation (PV (map fst (map (fun p => advance LM (fst p) (snd p) 0 0) (combine ids ps)))) (obs_vals (concat ps)) /\
+     DUP (linit g) (map fst (map (fun p => advance LM (fst p) (snd p) 0 0) (combine ids ps))) = []).
+  { induction ids as [|id ids IH]; intros [|p ps] L; try discriminate L; cbn [combine map concat].
+    - split; reflexivity.
+    - destruct (IH ps) as [A B]; [cbn in L; lia|]. rewrite advance_L. cbn [fst snd]. unfold PV, DUP in *. cbn [map concat]. split.
+      + rewrite A, obs_vals_app, pv_next. reflexivity.
+      + rewrite B. destruct p as [|[v|] rest]; reflexivity. }
+  destruct (G (map Z.of_nat (seq 0 (length progs))) progs) as [A B]; [rewrite map_length, seq_length; reflexivity|].
+  change (cntv (gs (linit g) false)) with (@nil f64). change (cntv (gs (linit g) true)) with (@nil f64). cbn [app].
+  match goal with |- context [PV ?X] => set (TT := X) in * end.
+  assert (A' : Permutation (PV TT) (obs_vals (concat progs))) by exact A.
+  assert (B' : DUP (linit g) TT = []) by exact B.
+  rewrite A', B', app_nil_r. reflexivity.
+Qed.
+
+Lemma InvV_reachable g progs sched : InvV (obs_vals (concat progs)) (run_sched LM (init_config LM (linit g) progs) sched).
+Proof.
+  assert (H : Inv (run_sched LM (init_config LM (linit g) progs) sched) /\ InvV (obs_vals (concat progs)) (run_sched LM (init_config LM (linit g) progs) sched)).
+  { apply (run_sched_ind LM (fun c => Inv c /\ InvV (obs_vals (concat progs)) c)).
+    - intros c tid c' [Hi Hv] Hs. split; [exact (Inv_step c tid c' Hi Hs)|exact (InvV_step _ c tid c' Hi Hv Hs)].
+    - split; [apply Inv_init|apply InvV_init]. }
+  apply H.
+Qed.
+
+Lemma qv_img (hl : nshL) (AV : list f64) :
+  Permutation (cntv (gs hl (nh_hot VC hl))) AV -> Permutation (sec (gs hl (nh_hot VC hl))) (nn (cntv (gs hl (nh_hot VC hl)))) ->
+  let h := zsh hl in let hot := nget Z h (nh_hot Z h) in
+  ns_cnt Z hot = NativeHist.zlen AV /\
+  ns_zb Z hot + NativeHist.zsum (map snd (ns_pos Z hot)) + NativeHist.zsum (map snd (ns_neg Z hot)) + nan_count AV = NativeHist.zlen AV.
+Proof.
+  intros PV0 P. cbv zeta. unfold zsh. cbn [msh nh_hot]. rewrite m_nget. cbn [mset ns_cnt ns_zb ns_pos ns_neg].
+  change (mmap VC Z phiL) with zmapm. rewrite !zsum_zmapm. change (nget VC hl) with (gs hl).
+  apply nn_perm in PV0 as PN. rewrite <- P in PN. apply Permutation_length in PN. apply Permutation_length in PV0.
+  unfold sec in PN. rewrite !app_length in PN. pose proof (nn_nan AV) as NN.
+  unfold cntv, zl, phiL, NativeHist.zlen in *. split; lia.
+Qed.
+
+Section ZThm3.
+Variables (g : config) (progs : list (list nop)) (sched : list Z).
+Let zc := run_sched ZM (init_config ZM (ninit Z 0 g) progs) sched.
+Let lc := run_sched LM (init_config LM (linit g) progs) sched.
+
+(* at quiescence the values counted in the hot set are exactly the observed values *)
+Lemma quiescent_values_L : all_done LM lc = true ->
+  Permutation (cntv (gs (sh lc) (nh_hot VC (sh lc)))) (obs_vals (concat progs)).
+Proof.
+  intros Hd. pose proof (InvV_reachable g progs sched) as V. fold lc in V. unfold InvV in V.
+  pose proof (quiescent_L g progs sched Hd) as Q. cbv zeta in Q. fold lc in Q. destruct Q as (_ & _ & _ & C1 & _).
+  destruct (InvN_reachable g progs sched) as [_ QN]. fold lc in QN.
+  pose proof (all_done_cur lc Hd) as AC.
+  assert (P0 : PV (thr lc) = []).
+  { apply concat_all_nil. intros t Ht. unfold pv. rewrite (AC t Ht). cbn [pvx]. rewrite app_nil_r.
+    assert (E : t_cur t = None) by (pose proof (AC t Ht) as A; unfold tpc in A; destruct (t_cur t) as [[[? ?] ?]|]; [discriminate|reflexivity]).
+    rewrite (QN t Ht E). reflexivity. }
+  assert (D0 : DUP (sh lc) (thr lc) = []) by (apply concat_all_nil; intros t Ht; rewrite (AC t Ht); reflexivity).
+  rewrite P0, D0, !app_nil_r in V. rewrite <- V. destruct (nh_hot VC (sh lc)); cbn [negb] in *; rewrite C1; rewrite ?app_nil_r; reflexivity.
+Qed.
+
+Lemma quiescent_values_Z : all_done ZM zc = true ->
+  let h := sh zc in let hot := nget Z h (nh_hot Z h) in
+  let AV := obs_vals (concat progs) in
+  ns_cnt Z hot = NativeHist.zlen AV /\
+  ns_zb Z hot + NativeHist.zsum (map snd (ns_pos Z hot)) + NativeHist.zsum (map snd (ns_neg Z hot)) + nan_count AV = NativeHist.zlen AV.
+Proof.
+  intros Hd. assert (Ez : zc = zcfg lc) by apply zrun.
+  assert (Hd' : all_done LM lc = true).
+  { rewrite <- Hd, Ez. symmetry. apply (all_done_hom (list f64) Z [] (@app f64) (fun v => [v]) (fun l => Z.of_nat (length l)) 0 Z.add (fun _ => 1) (fun x => x) phiL). }
+  pose proof (quiescent_values_L Hd') as PV0.
+  pose proof (quiescent_L g progs sched Hd') as Q. cbv zeta in Q. fold lc in Q. destruct Q as (_ & _ & P & _).
+  rewrite Ez. exact (qv_img (sh lc) _ PV0 P).
+Qed.
+End ZThm3.
